@@ -35,8 +35,33 @@ const (
 	EscEarly                  // go, passed to another function, stored, sent
 )
 
+// EscapeInfo is the result of the closure-escape analysis of one declared function.
+type EscapeInfo struct {
+	Esc      map[*ast.FuncLit]LitEscape
+	Shared   map[types.Object]bool           // locals captured by an early-escaping literal
+	Bound    map[types.Object][]*ast.FuncLit // local variable -> literals assigned to it
+	Captured map[*ast.FuncLit][]*types.Var   // literal -> locals of the enclosing function it uses
+}
+
+var escCache = map[*FuncDecl]*EscapeInfo{}
+
+// EscapesOf returns the (cached) escape analysis of decl.
+func EscapesOf(prog *Prog, decl *FuncDecl) *EscapeInfo {
+	if e, ok := escCache[decl]; ok {
+		return e
+	}
+	e := escapes(prog, decl)
+	escCache[decl] = e
+	return e
+}
+
 // Escapes classifies every literal of decl and returns the locals captured by early-escaping ones.
 func Escapes(prog *Prog, decl *FuncDecl) (map[*ast.FuncLit]LitEscape, map[types.Object]bool) {
+	e := EscapesOf(prog, decl)
+	return e.Esc, e.Shared
+}
+
+func escapes(prog *Prog, decl *FuncDecl) *EscapeInfo {
 	info := decl.Pkg.TypesInfo
 	esc := map[*ast.FuncLit]LitEscape{}
 	// local variable -> literals bound to it
@@ -188,10 +213,9 @@ func Escapes(prog *Prog, decl *FuncDecl) (map[*ast.FuncLit]LitEscape, map[types.
 		}
 	}
 	shared := map[types.Object]bool{}
+	captured := map[*ast.FuncLit][]*types.Var{}
 	for lit, e := range esc {
-		if e != EscEarly {
-			continue
-		}
+		seen := map[*types.Var]bool{}
 		ast.Inspect(lit.Body, func(n ast.Node) bool {
 			id, ok := n.(*ast.Ident)
 			if !ok {
@@ -203,12 +227,18 @@ func Escapes(prog *Prog, decl *FuncDecl) (map[*ast.FuncLit]LitEscape, map[types.
 			}
 			// declared inside the enclosing function but outside this literal
 			if obj.Pos() >= decl.Decl.Pos() && obj.Pos() < decl.Decl.End() && !(obj.Pos() >= lit.Pos() && obj.Pos() < lit.End()) {
-				shared[obj] = true
+				if !seen[obj] {
+					seen[obj] = true
+					captured[lit] = append(captured[lit], obj)
+				}
+				if e == EscEarly {
+					shared[obj] = true
+				}
 			}
 			return true
 		})
 	}
-	return esc, shared
+	return &EscapeInfo{Esc: esc, Shared: shared, Bound: bound, Captured: captured}
 }
 
 var sharedCache = map[*FuncDecl]map[types.Object]bool{}
@@ -218,7 +248,7 @@ func SharedLocals(prog *Prog, decl *FuncDecl) map[types.Object]bool {
 	if s, ok := sharedCache[decl]; ok {
 		return s
 	}
-	_, s := Escapes(prog, decl)
+	s := EscapesOf(prog, decl).Shared
 	sharedCache[decl] = s
 	return s
 }
